@@ -49,7 +49,7 @@ Qed.
 (* STOP: a name whose anchors do not match makes every run of the loop fail *)
 Theorem resolve_stop_refuses : forall cfg l r a la ra,
   anchor_merge_mode cfg = Ok KStop ->
-  ad_get a (scan_anchors l []) = Some la -> ad_get a (scan_anchors r []) = Some ra ->
+  ad_get a (an_scan_anchors l []) = Some la -> ad_get a (an_scan_anchors r []) = Some ra ->
   anchors_match la ra = false ->
   forall res, resolve_conflicts cfg l r <> Ok res.
 Proof.
@@ -61,7 +61,7 @@ Qed.
 
 (* no conflict: the loop does not look at the policy *)
 Definition no_conflict (l r : node) : Prop :=
-  forall a la ra, ad_get a (scan_anchors l []) = Some la -> ad_get a (scan_anchors r []) = Some ra ->
+  forall a la ra, ad_get a (an_scan_anchors l []) = Some la -> ad_get a (an_scan_anchors r []) = Some ra ->
     anchors_match la ra = true.
 
 Lemma in_common_names : forall lanc ranc a, In a (common_names lanc ranc) ->
@@ -87,7 +87,7 @@ Proof.
   intros cfg cfg' l r m m' Hm Hm' Hn. unfold resolve_conflicts. apply foldM_ext.
   intros [l1 r1] a Hin. unfold resolve_step.
   destruct (in_common_names _ _ _ Hin) as [la Hl]. rewrite Hl.
-  destruct (ad_get a (scan_anchors r [])) as [ra|] eqn:Hr; [|reflexivity].
+  destruct (ad_get a (an_scan_anchors r [])) as [ra|] eqn:Hr; [|reflexivity].
   rewrite Hm, Hm'. simpl. now rewrite (Hn a la ra Hl Hr).
 Qed.
 
@@ -109,7 +109,7 @@ Proof.
   apply foldM_snd_inv in E; [exact E|].
   intros [l1 r1] a s' Hin Hs. unfold resolve_step in Hs.
   destruct (in_common_names _ _ _ Hin) as [la Hl]. rewrite Hl in Hs.
-  destruct (ad_get a (scan_anchors r [])) as [ra|] eqn:Hr; [|discriminate].
+  destruct (ad_get a (an_scan_anchors r [])) as [ra|] eqn:Hr; [|discriminate].
   destruct (anchor_merge_mode cfg); simpl in Hs; try discriminate.
   rewrite (Hn a la ra Hl Hr) in Hs.
   destruct (replace_anchor ra l1); simpl in Hs; try discriminate. now inversion Hs.
